@@ -41,6 +41,7 @@ type c02App struct {
 	valSym   string
 	backSel  string
 	nextLabel, prevLabel string
+	prefixMode bool // no wildcard in the node and a catch node that only moves back: an unmatched input re-renders the page with an error line on top
 }
 
 func buildC02(t interface {
@@ -137,10 +138,16 @@ func buildC02(t interface {
 	}
 	code = append(code, app.Inst{Op: app.HALT})
 	code = append(code, app.Inst{Op: app.INCMP, A: ">", B: x.nextSel}, app.Inst{Op: app.INCMP, A: "<", B: x.prevSel})
-	code = append(code, app.Inst{Op: app.INCMP, A: "other", B: "*"})
+	x.prefixMode = t.Chance(1, 6)
+	catchCode := []app.Inst{{Op: app.HALT}, {Op: app.MOVE, A: "_"}}
+	if x.prefixMode {
+		catchCode = []app.Inst{{Op: app.MOVE, A: "_"}}
+	} else {
+		code = append(code, app.Inst{Op: app.INCMP, A: "other", B: "*"})
+	}
 	a.Nodes = append(a.Nodes, &app.Node{Name: "root", Code: code, Tpl: map[string]string{"": tpl + "$"}})
 	a.Nodes = append(a.Nodes, &app.Node{Name: "other", Code: []app.Inst{{Op: app.HALT}, {Op: app.INCMP, A: "_", B: "*"}}, Tpl: map[string]string{"": "@other|$"}})
-	a.Nodes = append(a.Nodes, &app.Node{Name: "_catch", Kind: app.KCatch, Code: []app.Inst{{Op: app.HALT}, {Op: app.MOVE, A: "_"}}, Tpl: map[string]string{"": "@_catch|oops$"}})
+	a.Nodes = append(a.Nodes, &app.Node{Name: "_catch", Kind: app.KCatch, Code: catchCode, Tpl: map[string]string{"": "@_catch|oops$"}})
 	a.Index()
 	x.a = a
 	if !x.msink {
@@ -219,11 +226,13 @@ func runC02(c *core.Ctx) *core.Outcome {
 	w.UseMem()
 	defer w.Close()
 	S := w.NewSession("s", persisted)
+	var walkAttrs map[string]string // set while the walk starts from a page that carries an error line
 	fail := func(class string, step int, format string, args ...interface{}) *core.Outcome {
-		o.Fail(class, step, nil, format, args...)
+		o.Fail(class, step, walkAttrs, format, args...)
 		o.Scenario = scenario(w, map[string]interface{}{"output_size": size, "rows": strings.Split(allRows, "\n"), "msink": x.msink, "unsized_page": us.Out})
 		return finish(o, w, wu)
 	}
+	allowPrefix := false
 	parse := func(st *world.Step) (c02Page, bool) {
 		pg := app.ParsePage(st.Out)
 		if !pg.OK || pg.Node != "root" {
@@ -256,7 +265,7 @@ func runC02(c *core.Ctx) *core.Outcome {
 				return p, false
 			}
 		}
-		if pg.Prefix != "" {
+		if pg.Prefix != "" && !allowPrefix {
 			return p, false
 		}
 		return p, true
@@ -291,6 +300,26 @@ func runC02(c *core.Ctx) *core.Outcome {
 		return fail("page-static-part-wrong", 0, "page 0 does not carry the static text, non-sink values and ordinary menu of the unsized page: %s (unsized %s)", short(st.Out), short(us.Out))
 	}
 	pages := []c02Page{p0}
+	if x.prefixMode {
+		// the client mistypes on the first page: the catch node sends it straight back and the page
+		// comes again with an error line on top. Walking on from THAT page must still show every row once
+		se := S.Request([]byte("zz"), persisted)
+		o.Counts["requests"]++
+		if se.Panic != "" || se.ExecErr != "" || se.FlushErr != "" {
+			o.Probes["error_page_refused"]++
+			return finish(o, w, wu)
+		}
+		allowPrefix = true
+		pe, ok := parse(se)
+		allowPrefix = false
+		if !ok || app.ParsePage(se.Out).Prefix == "" {
+			o.Probes["error_page_not_recognised"]++
+			return finish(o, w, wu)
+		}
+		pages = []c02Page{pe}
+		walkAttrs = map[string]string{"walk": "from-page-with-error-line"}
+		o.Probes["walk_from_page_with_error_line"]++
+	}
 	// walk forward
 	for len(pages) < 80 {
 		cur := pages[len(pages)-1]
@@ -329,7 +358,7 @@ func runC02(c *core.Ctx) *core.Outcome {
 					cause = "row-exceeds-page-with-browse-entries"
 				}
 			}
-			o.Fail("offered-next-does-not-render", step, map[string]string{"cause": cause}, "page %d offers 'next' but the following page does not render: exec %q flush %q (cause: %s)", len(pages)-1, st.ExecErr, st.FlushErr, cause)
+			o.Fail("offered-next-does-not-render", step, mergeAttrs(map[string]string{"cause": cause}, walkAttrs), "page %d offers 'next' but the following page does not render: exec %q flush %q (cause: %s)", len(pages)-1, st.ExecErr, st.FlushErr, cause)
 			o.Scenario = scenario(w, map[string]interface{}{"output_size": size, "rows": strings.Split(allRows, "\n"), "msink": x.msink, "unsized_page": us.Out})
 			return finish(o, w, wu)
 		}
@@ -376,7 +405,7 @@ func runC02(c *core.Ctx) *core.Outcome {
 	}
 	o.Probes["past_the_end_refused"]++
 	// walk back on a fresh session positioned on the last page (the request past the end may have left the node)
-	if len(pages) > 1 {
+	if len(pages) > 1 && walkAttrs == nil {
 		w2 := world.New(x.a, cfg)
 		w2.UseMem()
 		defer w2.Close()
@@ -429,4 +458,11 @@ func bucket(n int) string {
 		return "4-6"
 	}
 	return "7+"
+}
+
+func mergeAttrs(a, b map[string]string) map[string]string {
+	for k, v := range b {
+		a[k] = v
+	}
+	return a
 }
